@@ -141,6 +141,12 @@ theorem eval_time_roundtrip (T : Nat) (hT : T ≠ 0) (rel : Rat) :
     relTime T (rel * ((T : Rat) / 1000)) = rel :=
   relTime_roundtrip T hT rel
 
+/-- The end point `T/1000` of every emulation is filed under the relative time 1 (in float64 too,
+since `x / x = 1`: repair of finding F52). -/
+theorem eval_time_end_point (T : Nat) (hT : T ≠ 0) : relTime T ((T : Rat) / 1000) = 1 := by
+  have := relTime_roundtrip T hT 1
+  simpa using this
+
 /-- **(2)** The matching tolerance `0.5/T` used by `Observable.__call__` separates any two
 distinct integer-nanosecond instants … -/
 theorem tol_separates (T : Nat) (hT : T ≠ 0) (k1 k2 : Nat) (hk : k1 ≠ k2) :
